@@ -82,7 +82,7 @@ var reBounded = regexp.MustCompile(`^BOUNDED name=(\S+) cases=(\d+) fails=(\d+) 
 var reBoundedFail = regexp.MustCompile(`^BOUNDED-FAIL name=(\S+) (.*)$`)
 
 // runBounded runs the bounded stand-in tests of a property (in-package tests injected by overlay).
-func runBounded(root, verifDir, prop, tier string, seed int64, dirs []string) ([]boundedResult, []string) {
+func runBounded(root, verifDir, outBase, prop, tier string, seed int64, dirs []string) ([]boundedResult, []string) {
 	var results []boundedResult
 	var problems []string
 	var mu sync.Mutex
@@ -108,8 +108,8 @@ func runBounded(root, verifDir, prop, tier string, seed int64, dirs []string) ([
 				ov["Replace"][filepath.Join(root, rel, "zz_verif_"+filepath.Base(f))] = f
 			}
 			ovb, _ := json.Marshal(ov)
-			os.MkdirAll(filepath.Join(verifDir, "out", "overlay"), 0o755)
-			ovPath := filepath.Join(verifDir, "out", "overlay", prop+"_"+strings.ReplaceAll(rel, "/", "_")+".json")
+			os.MkdirAll(filepath.Join(outBase, "out", "overlay"), 0o755)
+			ovPath := filepath.Join(outBase, "out", "overlay", prop+"_"+strings.ReplaceAll(rel, "/", "_")+".json")
 			os.WriteFile(ovPath, ovb, 0o644)
 			t0 := time.Now()
 			cmd := exec.Command("go", "test", "-overlay", ovPath, "-vet=off", "-count=1", "-timeout", "1500s", "-run", "^TestVerif_"+prop+"_", "-v", "./"+rel)
@@ -163,7 +163,12 @@ func cmdCheck(args []string) {
 	tier := fs.String("tier", "quick", "quick|thorough")
 	root := fs.String("root", "/repo", "repository root")
 	verifDir := fs.String("verif", "/verif", "verif directory")
+	outDir := fs.String("outdir", "", "write evidence/replays/vc files below this directory instead of the verif directory (selftest)")
 	fs.Parse(args)
+	outBase := *verifDir
+	if *outDir != "" {
+		outBase = *outDir
+	}
 	if *prop == "" {
 		fatal("check: -prop required")
 	}
@@ -198,14 +203,14 @@ func cmdCheck(args []string) {
 
 	v, err := loadVerifier(*root)
 	if err != nil {
-		fmt.Printf("VIOLATION property=%s replay=%s no-failing-input-found\n", *prop, writeSimpleReplay(*verifDir, *prop, "load", "cannot load /repo: "+err.Error()))
+		fmt.Printf("VIOLATION property=%s replay=%s no-failing-input-found\n", *prop, writeSimpleReplay(outBase, *prop, "load", "cannot load /repo: "+err.Error()))
 		os.Exit(1)
 	}
-	v.vcDir = filepath.Join(*verifDir, "out", "vc", *prop, "range")
-	vcDir := filepath.Join(*verifDir, "out", "vc", *prop)
+	v.vcDir = filepath.Join(outBase, "out", "vc", *prop, "range")
+	vcDir := filepath.Join(outBase, "out", "vc", *prop)
 	os.RemoveAll(vcDir)
 	os.MkdirAll(vcDir, 0o755)
-	replayDir := filepath.Join(*verifDir, "replays", *prop)
+	replayDir := filepath.Join(outBase, "replays", *prop)
 	os.RemoveAll(replayDir)
 	os.MkdirAll(replayDir, 0o755)
 	loadSecs := time.Since(t0).Seconds()
@@ -220,11 +225,11 @@ func cmdCheck(args []string) {
 		fmt.Println(line)
 	}
 	if len(v.loadErrs) > 0 {
-		p := writeSimpleReplay(*verifDir, *prop, "load", "package load errors: "+strings.Join(v.loadErrs, "; "))
+		p := writeSimpleReplay(outBase, *prop, "load", "package load errors: "+strings.Join(v.loadErrs, "; "))
 		violate("load", p, false)
 	}
 	for _, e := range v.contracts.Errors {
-		p := writeSimpleReplay(*verifDir, *prop, "contract-syntax", e)
+		p := writeSimpleReplay(outBase, *prop, "contract-syntax", e)
 		violate("contract-syntax", p, false)
 	}
 
@@ -385,7 +390,7 @@ func cmdCheck(args []string) {
 	boundedCases := 0
 	if len(cfg.Bounded) > 0 {
 		var problems []string
-		bounded, problems = runBounded(*root, *verifDir, *prop, *tier, seed, cfg.Bounded)
+		bounded, problems = runBounded(*root, *verifDir, outBase, *prop, *tier, seed, cfg.Bounded)
 		for _, b := range bounded {
 			boundedCases += b.Cases
 		}
@@ -397,7 +402,7 @@ func cmdCheck(args []string) {
 				}
 				continue
 			}
-			p := writeSimpleReplay(*verifDir, *prop, "bounded", pr)
+			p := writeSimpleReplay(outBase, *prop, "bounded", pr)
 			violate("bounded", p, strings.HasPrefix(pr, "bounded "))
 		}
 	}
@@ -414,7 +419,7 @@ func cmdCheck(args []string) {
 				byBackend["smt:z3-new(sweep)"] += d
 			}
 			for _, pr := range probs {
-				p := writeSimpleReplay(*verifDir, *prop, "sweep-"+pr.Key, pr.Msg)
+				p := writeSimpleReplay(outBase, *prop, "sweep-"+pr.Key, pr.Msg)
 				violate("sweep", p, false)
 			}
 			for _, o := range failed {
@@ -458,12 +463,12 @@ func cmdCheck(args []string) {
 				}
 				continue
 			}
-			p := writeSimpleReplay(*verifDir, *prop, "static-"+sname+"-"+pr.Key, pr.Msg)
+			p := writeSimpleReplay(outBase, *prop, "static-"+sname+"-"+pr.Key, pr.Msg)
 			violate("static", p, false)
 		}
 	}
 	if total == 0 && len(bounded) == 0 {
-		p := writeSimpleReplay(*verifDir, *prop, "vacuity", "the check generated no obligations at all")
+		p := writeSimpleReplay(outBase, *prop, "vacuity", "the check generated no obligations at all")
 		violate("vacuity", p, false)
 	}
 
@@ -559,9 +564,9 @@ func cmdCheck(args []string) {
 		"wall_s":      round3(time.Since(t0).Seconds()),
 		"violations":  len(violations),
 	}
-	os.MkdirAll(filepath.Join(*verifDir, "evidence"), 0o755)
+	os.MkdirAll(filepath.Join(outBase, "evidence"), 0o755)
 	b, _ := json.MarshalIndent(ev, "", " ")
-	os.WriteFile(filepath.Join(*verifDir, "evidence", *prop+".json"), b, 0o644)
+	os.WriteFile(filepath.Join(outBase, "evidence", *prop+".json"), b, 0o644)
 	fmt.Printf("%s %s: %d/%d obligations discharged, %d range, %d covers, %d bounded cases, %d violations, %.1fs\n", *prop, *tier, discharged, total, nRange, covers, boundedCases, len(violations), time.Since(t0).Seconds())
 	if len(violations) > 0 {
 		os.Exit(1)
